@@ -5,8 +5,8 @@ The real text of nnls_normal_block3 (the solver fitting uses), nnls_normal_block
 modify_factor_p, walk_descents, evaluate_descent and calc_residual is extracted from src/fitter/nnls.c and
 src/fitter/cholesky_solve.c on every run, compiled by goto-cc and executed from CBMC's GOTO program over exact rationals (E3).
 cholmod is an ASSUMED CONTRACT: sparse/dense objects are exact matrices; a cholmod_factor is an abstract object
-'the factorisation of this symmetric matrix' (analyze/factorize/rowadd/rowdel/solve act on the matrix; recompute_factor and
-get_column, which work on cholmod's factor / compressed-column internals, are replaced by their documented effect).
+'the factorisation of this symmetric matrix' (analyze/factorize/rowadd/rowdel/solve act on the matrix; recompute_factor,
+which works on cholmod's factor internals, is replaced by its documented effect; get_column runs as written on compressed-column arrays).
 The worker threads of walk_descents are run to completion, one after the other, whenever the coordinator waits (the thread
 protocol itself is C12).
 
@@ -37,7 +37,7 @@ double vp_nan(void);
 void vp_assert_fail(void);
 typedef struct cholmod_method_struct { int ordering; } vp_method;
 typedef struct cholmod_common_struct { int status; double fl, lnz, modfl; int nmethods; vp_method* method; /* an array member in cholmod; a pointer to ten entries here: the interpreter keeps one cell per struct member */ } cholmod_common;
-typedef struct cholmod_sparse_struct { size_t nrow, ncol; int stype; } cholmod_sparse;
+typedef struct cholmod_sparse_struct { size_t nrow, ncol, nzmax; void *p, *i, *nz, *x; int stype, packed, sorted; } cholmod_sparse;   /* the members photospline reads */
 typedef struct cholmod_dense_struct { size_t nrow, ncol; void* x; } cholmod_dense;
 typedef struct cholmod_factor_struct { size_t n; void* Perm; } cholmod_factor;
 #define CHOLMOD_REAL 1
@@ -68,6 +68,7 @@ int cholmod_l_rowadd(size_t, cholmod_sparse*, cholmod_factor*, cholmod_common*);
 cholmod_dense* SuiteSparseQR_C_backslash_default(cholmod_sparse*, cholmod_dense*, cholmod_common*);
 void bzero(void*, size_t); extern void* stderr; int fprintf(void*, const char*, ...); void exit(int);
 cholmod_sparse* get_column(cholmod_sparse* A, long k, long* iPerm, long* Fset, long nF, cholmod_common* c);
+cholmod_sparse* cholmod_l_allocate_sparse(size_t, size_t, size_t, int, int, int, int, cholmod_common*);
 cholmod_factor* recompute_factor(cholmod_sparse* A, cholmod_factor* L, long* iPerm, long* F, unsigned long nF, cholmod_common* c);
 '''
 PROTOS = r'''
@@ -80,7 +81,7 @@ void evaluate_descent(void* trial_);
 int walk_descents(cholmod_sparse* AtA_F, cholmod_dense* Atb_F, cholmod_dense* x, cholmod_dense* x_F, long* F, long* nF_, long* H1, long* nH1_, double* residual, int* residual_calcs, int verbose, cholmod_common* c);
 '''
 NNLS_FUNCS = ("intcmp", "nnls_lawson_hanson", "nnls_normal_block", "nnls_normal_block_updown", "nnls_normal_block3")
-CHOL_FUNCS = ("double_rcmp", "cholesky_solve", "modify_factor", "modify_factor_p", "calc_residual", "evaluate_descent", "walk_descents")
+CHOL_FUNCS = ("double_rcmp", "get_column", "cholesky_solve", "modify_factor", "modify_factor_p", "calc_residual", "evaluate_descent", "walk_descents")
 
 def build():
     """the translation unit: constants and the descent_trial type copied verbatim from the sources, then the functions as written"""
@@ -137,11 +138,38 @@ class WorkerExit(Exception): pass
 
 def install(it, nthreads, fl_mode):
     reg = {}; freg = {}; keep = []; st = dict(workers=[], in_worker=False, solves=0, rowadd=0, rowdel=0, recompute=0, factorize=0, descents=0)
+    def materialise(o, S):
+        """compressed-column arrays of the stored entries (packed, sorted): what get_column reads through A->p, A->i, A->x"""
+        cols = {}
+        for (r, c), v in S.ent.items(): cols.setdefault(c, []).append((r, v))
+        pp = [0]; ii = []; xx = []
+        for c in range(S.m):
+            for r, v in sorted(cols.get(c, [])): ii.append(r); xx.append(F(v))
+            pp.append(len(ii))
+        o.cells[0].update(nzmax=max(len(ii), 1), p=G.Ptr(it.array("Ap", pp), 0), i=G.Ptr(it.array("Ai", ii or [0]), 0), x=G.Ptr(it.array("Ax", xx or [F(0)]), 0), nz=G.NULL, packed=1, sorted=1)
     def mk(S, stype):
-        o = it.new_obj("sparse", 1); o.cells[0] = dict(nrow=S.n, ncol=S.m, stype=stype); reg[id(o)] = S; keep.append(o); return G.Ptr(o, 0)
+        o = it.new_obj("sparse", 1); o.cells[0] = dict(nrow=S.n, ncol=S.m, stype=stype); reg[id(o)] = S; keep.append(o); materialise(o, S); return G.Ptr(o, 0)
+    def h_allocate_sparse(it_, a):
+        # an empty packed matrix whose arrays the caller fills (get_column): its entries are read back from the arrays
+        nrow, ncol, nzmax = a[0], a[1], a[2]; o = it.new_obj("sparse", 1); S = Sp(nrow, ncol, None); reg[id(o)] = S; keep.append(o)
+        o.cells[0] = dict(nrow=nrow, ncol=ncol, nzmax=nzmax, stype=a[5], packed=1 if a[4] else 0, sorted=1 if a[3] else 0, p=G.Ptr(it.new_obj("Rp", ncol + 1), 0), i=G.Ptr(it.new_obj("Ri", max(nzmax, 1)), 0),
+                          x=G.Ptr(it.new_obj("Rx", max(nzmax, 1)), 0), nz=G.NULL)
+        return G.Ptr(o, 0)
     def get(p):
         if not isinstance(p, G.Ptr) or p.obj is None or id(p.obj) not in reg or not p.obj.live: raise G.MemError("cholmod call on a freed / foreign sparse matrix")
-        return reg[id(p.obj)], p.obj.cells[0]["stype"]
+        S = reg[id(p.obj)]; d = p.obj.cells[0]
+        if S.ent is None or getattr(S, "raw", False):
+            S.raw = True; ent = {}; pc, ic, xc = d["p"].obj.cells, d["i"].obj.cells, d["x"].obj.cells
+            for c in range(S.m):
+                lo, hi = pc[c], pc[c + 1]
+                if not (isinstance(lo, int) and isinstance(hi, int) and 0 <= lo <= hi <= d["nzmax"]): raise G.ExecError("sparse matrix with unset / inconsistent column pointers handed to cholmod")
+                for q in range(lo, hi):
+                    if not isinstance(ic[q], int) or xc[q] is None: raise G.ExecError("sparse matrix with unset entries handed to cholmod")
+                    if not 0 <= ic[q] < S.n: raise G.MemError("sparse matrix with a row index outside the matrix handed to cholmod")
+                    if (ic[q], c) in ent: raise G.ExecError("sparse matrix with a duplicate entry handed to cholmod")
+                    ent[(ic[q], c)] = xc[q].num
+            S.ent = ent
+        return S, d["stype"]
     def full(S, stype):
         if stype == 0: return dict(S.ent)
         out = {}
@@ -168,7 +196,7 @@ def install(it, nthreads, fl_mode):
     def h_drop(it_, a):
         tol = a[0].num; S, stp = get(a[1])
         ent = {k: v for k, v in S.ent.items() if abs(v) > tol and (stp == 0 or (stp > 0 and k[0] <= k[1]) or (stp < 0 and k[0] >= k[1]))}
-        S.ent = ent; return 1
+        S.ent = ent; materialise(a[1].obj, S); return 1
     def idx(p, n):
         v = p.obj.cells[p.off:p.off + n] if n else []
         if any(not isinstance(x, int) for x in v): raise G.ExecError("index set with unset entries handed to cholmod")
@@ -228,11 +256,6 @@ def install(it, nthreads, fl_mode):
         for (r, c), v in S.ent.items(): M[k][f["perm"][r]] = M[f["perm"][r]][k] = v
         if not is_spd(M): raise G.ExecError("cholmod_rowadd: updated matrix not positive definite")
         return 1
-    def h_get_column(it_, a):
-        # assumed (documented effect): column k of A restricted to the rows in Fset, n-by-1, row r stored at position iPerm[r]
-        S, stp = get(a[0]); k = a[1]; Fs = idx(a[3], a[4]); ent = full(S, stp)
-        ip = idx(a[2], S.n) if isinstance(a[2], G.Ptr) and a[2].obj is not None else list(range(S.n))
-        return mk(Sp(S.n, 1, {(ip[r], 0): ent[(r, k)] for r in Fs if (r, k) in ent}), 0)
     def h_recompute(it_, a):
         # assumed (documented effect): L becomes the factorisation of A[F,F] embedded in the identity, in L's ordering
         S, stp = get(a[0]); f = fac(a[1]); Fs = idx(a[3], a[4]); ent = full(S, stp); n = f["n"]; st["recompute"] += 1
@@ -338,7 +361,7 @@ def install(it, nthreads, fl_mode):
     it.hooks.update(cholmod_l_zeros=lambda it_, a: new_dense(a[0], a[1], [F(0)] * (a[0] * a[1])), cholmod_l_allocate_dense=lambda it_, a: new_dense(a[0], a[1], [None] * (a[0] * a[1])),
                     cholmod_l_copy_dense=lambda it_, a: new_dense(dense(a[0])["nrow"], dense(a[0])["ncol"], dense(a[0])["x"].obj.cells[:dense(a[0])["nrow"] * dense(a[0])["ncol"]]),
                     cholmod_l_free_dense=h_free, cholmod_l_free_sparse=h_free, cholmod_l_free_factor=h_free, cholmod_l_drop=h_drop, cholmod_l_submatrix=h_submatrix, cholmod_l_sdmult=h_sdmult,
-                    cholmod_l_analyze=h_analyze, cholmod_l_factorize=h_factorize, cholmod_l_solve=h_solve, cholmod_l_rowadd=h_rowadd, cholmod_l_rowdel=h_rowdel, get_column=h_get_column, recompute_factor=h_recompute,
+                    cholmod_l_analyze=h_analyze, cholmod_l_factorize=h_factorize, cholmod_l_solve=h_solve, cholmod_l_rowadd=h_rowadd, cholmod_l_rowdel=h_rowdel, cholmod_l_allocate_sparse=h_allocate_sparse, recompute_factor=h_recompute,
                     qsort=h_qsort, memcpy=h_memcpy, malloc=lambda it_, a: G.Ptr(it_.new_obj("malloc", max(a[0], 1)), 0), realloc=h_realloc, free=h_free_libc, printf=ok, clock=ok,
                     ceil=lambda it_, a: F(-((-a[0].num.numerator) // a[0].num.denominator)), get_nthreads=lambda it_, a: nthreads, vp_nan=lambda it_, a: "nan",
                     sched_setaffinity=ok, pthread_attr_init=ok, pthread_attr_setdetachstate=ok, pthread_attr_destroy=h_destroy, pthread_mutex_init=ok, pthread_cond_init=ok, pthread_mutex_destroy=ok,
@@ -581,7 +604,7 @@ def main():
         return dict(replayed=(rc == 1), input="replay_nnls %s %d %s" % (solver, len(A), argsv), observed=("exit %d\n" % rc) + out[-1500:], command="tools/replay/replay_nnls.c linked with src/fitter/{nnls,cholesky_solve,splineutil}.c and the real cholmod")
     for name, sel in (("C11-block3", "nnls_normal_block3"), ("C11-block", "[nnls_normal_block,"), ("C11-updown", "[nnls_normal_block_updown,"), ("C11-lawson-hanson", "[nnls_lawson_hanson")):
         grp = [o for o in flat if sel in o[0]]
-        rep.add_group("E3-rational (exact execution of the GOTO program; cholmod, recompute_factor and get_column as assumed contracts; workers run to completion)", len(grp), sum(1 for o in grp if o[1]),
+        rep.add_group("E3-rational (exact execution of the GOTO program; cholmod and recompute_factor as assumed contracts; workers run to completion)", len(grp), sum(1 for o in grp if o[1]),
                       time.time() - t0, bounded="%d symmetric positive-definite systems, 1..%d unknowns; 1-3 workers; three work-estimate regimes of modify_factor" % (len(sysl), max(len(s[1]) for s in sysl)), name=name)
         for o in grp:
             if not o[1]: rep.add_violation(name, re.sub(r"[^\w\-\+\.\[\],:#]", "_", o[0])[:200], o[0] + ": " + o[2], trace=o[2], replay=replay(o[0]))
@@ -633,7 +656,7 @@ def main():
     rep.samples.append("paths exercised: %s" % tot)
     rep.assume("PARTIAL and BOUNDED: decided for nnls_normal_block3 (the solver fitting uses), nnls_normal_block, nnls_normal_block_updown and nnls_lawson_hanson (normal-equation and least-squares form, tolerance 1e-9, no iteration cap) on the enumerated systems only",
                "cholmod (submatrix, sdmult, drop, analyze, factorize, rowadd, rowdel, solve) and SuiteSparseQR's backslash (least-squares solution of a full-column-rank system) are an assumed contract: exact sparse algebra, a factor is the factorisation of its matrix",
-               "recompute_factor and get_column (they work inside cholmod's factor / compressed-column arrays) are replaced by their documented effect: NOT verified",
+               "recompute_factor (it works inside cholmod's simplicial factor arrays) is replaced by its documented effect: NOT verified; get_column runs as written on the compressed-column arrays of the matrix",
                "the worker threads of walk_descents are run to completion one after the other when the coordinator waits (protocol: C12)",
                "machine arithmetic treated as mathematical: every decision of the solvers is taken on exact rationals; rounding and conditioning are not modelled, except that nnls_normal_block3 is also run with noise of size 2^-53 * |operand| and either sign at every exact cancellation (a test of robustness, not a model of IEEE arithmetic)",
                "qsort: the comparator of the source is called on the elements; intcmp reads long elements through int pointers (values < 2^31)",
